@@ -678,3 +678,150 @@ SPECS.append(FucSpec(
     attr_hooks={'request.headers': lambda I: I.st.ghost['REQH']}, cover=['return'],
     clause='the routing key differs from the Host header only if the remote address is a configured trusted gateway',
 ))
+
+
+# ----------------------------------------------------------------------------- MemoryStore: session id -> data
+# "Session data stored under a session id is only returned to requests presenting that id": Sessions.request (above) loads the
+# store under the verified id only; the store itself must then key its table by EXACTLY that id - the whole string, uuid part and
+# fingerprint part.  The table is a model object that records every access; the obligations pin the key of each access to the sid
+# argument (string equality, for every sid).
+class StoreTable(VModel):
+    def getitem(self, I, idx):
+        I.st.ghost.setdefault('TABLE_OPS', []).append(('get', idx, None))
+        # defaultdict(dict): a missing key creates an empty entry; either way some dict object comes back
+        return VRef(core.fn('STORED_UNDER', S(), core.RefSort())(idx.t), 'dict')
+
+    def setitem(self, I, idx, val):
+        I.st.ghost.setdefault('TABLE_OPS', []).append(('set', idx, val))
+
+    def delitem(self, I, idx):
+        I.st.ghost.setdefault('TABLE_OPS', []).append(('del', idx, None))
+
+
+def ms_setup(with_data):
+    def setup(I):
+        self = obj(I, 'self', 'MemoryStore')
+        sid = sym(I, 'sid', Str)
+        a = {'self': self, 'sid': sid}
+        if with_data:
+            a['data'] = obj(I, 'data', 'dict')
+        I.st.ghost['TABLE_OPS'] = []
+        return a
+    return setup
+
+
+def ms_post(op):
+    def post(I, outcome, ctx):
+        kind, v = outcome
+        a = ctx['args']
+        if kind == 'raise':
+            I.oblige('no_escape', z3.BoolVal(op == 'del' and v.cls == 'KeyError'), detail='escaping %s' % v.cls)
+            return
+        cover(I, 'return')
+        ops = I.st.ghost['TABLE_OPS']
+        I.oblige('one_table_access_of_the_right_kind', z3.BoolVal(len(ops) == 1 and ops[0][0] == op),
+                 detail='table accesses: %r' % [o[0] for o in ops])
+        for o in ops:
+            I.oblige('table_keyed_by_exactly_the_session_id', o[1].t == a['sid'].t,
+                     detail='the table entry that is read, written or deleted is the one of the complete session id (uuid part AND '
+                            'client fingerprint): data stored under one id must not be reachable through another id')
+        if op == 'get' and len(ops) == 1:
+            ok = isinstance(v, VCons) and v.tag == 'Session' and len(v.args) == 3
+            I.oblige('returns_a_session_of_this_id_with_the_stored_data', z3.BoolVal(ok))
+            if ok:
+                I.oblige('session_carries_the_id_the_data_and_the_store',
+                         z3.And(v.args[0].t == a['sid'].t, v.args[1].t == core.fn('STORED_UNDER', S(), core.RefSort())(a['sid'].t),
+                                v.args[2].t == a['self'].t))
+        if op == 'set' and len(ops) == 1:
+            I.oblige('stores_the_data_given', ops[0][2].t == a['data'].t)
+    return post
+
+
+def ms_replay(model, ob):
+    return '''
+import sys
+from circuits.web.sessions import MemoryStore
+bad = []
+for a, b in (('u1/fpA', 'u1/fpB'), ('u1/fpA', 'u1'), ('u1/fpA', 'u1/'), ('u1/x/y', 'u1/x'), ('U1/fp', 'u1/fp')):
+    st = MemoryStore()
+    st.save(a, {'secret': 1})
+    got = dict(st.load(b))
+    if got:
+        bad.append('data saved under %r is returned by load(%r): %r' % (a, b, got))
+    st.save(b, {'other': 2})
+    if dict(st.load(a)) != {'secret': 1}:
+        bad.append('save(%r) changed the data stored under %r: %r' % (b, a, dict(st.load(a))))
+    try:
+        st.delete(b)
+    except KeyError:
+        pass
+    if dict(st.load(a)) != {'secret': 1}:
+        bad.append('delete(%r) removed the data stored under %r' % (b, a))
+print('\\n'.join(bad) or 'the store keeps ids apart')
+if bad:
+    print('REPRODUCED')
+sys.exit(1 if bad else 0)
+'''
+
+
+for _name, _op, _wd in (('MemoryStore.load', 'get', False), ('MemoryStore.save', 'set', True), ('MemoryStore.delete', 'del', False)):
+    SPECS.append(FucSpec(
+        'C20', 'circuits/web/sessions.py', _name, ms_setup(_wd), ms_post(_op), fields=SESS_FIELDS,
+        calls={'Session': lambda I, r, a, k: VCons('Session', a)}, attr_hooks={'self.data': lambda I: StoreTable()},
+        cover=['return'], replay=ms_replay,
+        clause='%s touches exactly one table entry, the one keyed by the complete session id it was given' % _name))
+
+
+# Session.__exit__ / Session.expire: the session writes back (deletes) under the id it was loaded with, nothing else
+SN_FIELDS = dict(SESS_FIELDS, _sid=Str)
+
+
+def sn_setup(exit_):
+    def setup(I):
+        self = obj(I, 'self', 'Session')
+        I.st.ghost['STORE_CALLS'] = []
+        a = {'self': self}
+        if exit_:
+            a['exc_type'] = sym(I, 'exc_type', Opt(Ref))
+            a['exc_value'] = sym(I, 'exc_value', Opt(Ref))
+            a['traceback'] = sym(I, 'traceback', Opt(Ref))
+        return a
+    return setup
+
+
+def sn_post(exit_):
+    def post(I, outcome, ctx):
+        kind, v = outcome
+        a = ctx['args']
+        if kind == 'raise':
+            I.oblige('no_escape', z3.BoolVal(False), detail='escaping %s' % v.cls)
+            return
+        cover(I, 'return')
+        calls = I.st.ghost['STORE_CALLS']
+        sid0 = I.fz(a['self'], '_sid')
+        if exit_:
+            clean = a['exc_type'].isnone
+            I.oblige('saved_once_iff_the_block_ended_without_exception', z3.BoolVal(len(calls) == 1 and calls[0][0] == 'save') == clean)
+            I.oblige('failed_block_stores_nothing', z3.Implies(z3.Not(clean), z3.BoolVal(len(calls) == 0)))
+        else:
+            I.oblige('deleted_once', z3.BoolVal(len(calls) == 1 and calls[0][0] == 'delete'))
+        for c in calls:
+            I.oblige('store_addressed_with_the_id_of_this_session', c[1][0].t == sid0)
+            if c[0] == 'save':
+                I.oblige('the_session_itself_is_saved', c[1][1].t == a['self'].t)
+    return post
+
+
+def _sn_call(kind):
+    def f(I, recv, args, kw):
+        I.st.ghost['STORE_CALLS'].append((kind, args))
+        return NONE
+    return f
+
+
+for _q, _ex in (('Session.__exit__', True), ('Session.expire', False)):
+    SPECS.append(FucSpec(
+        'C20', 'circuits/web/sessions.py', _q, sn_setup(_ex), sn_post(_ex), fields=SN_FIELDS,
+        calls={'self.store.save': _sn_call('save'), 'self.store.delete': _sn_call('delete')},
+        attr_hooks={'self.sid': lambda I: VStr(I.fz(I.local('self'), '_sid'))}, cover=['return'],
+        clause='%s addresses the store with the id this session was loaded under (and nothing else)' % _q))
